@@ -300,7 +300,7 @@ func committedValueCases(w *world) []kase {
 // matches the commitment its recipient holds: only the echo of the round-2 broadcast tells the honest
 // parties that they were shown different commitments.
 func equivocatedCommitmentCases(w *world) []kase {
-	if w.sc.Proto != "cmp-keygen" || len(w.spec.IDs) < 3 {
+	if (w.sc.Proto != "cmp-keygen" && w.sc.Proto != "cmp-refresh") || len(w.spec.IDs) < 3 {
 		return nil
 	}
 	type variant struct {
@@ -311,7 +311,11 @@ func equivocatedCommitmentCases(w *world) []kase {
 	}
 	flip := func(r types.RID) types.RID { o := append(types.RID{}, r...); o[0] ^= 0x55; return o }
 	vs := []variant{{"second-commitment-with-another-chain-key-opened-consistently@one-recipient", "/C", flip, false}}
-	for _, f := range []string{"/RID", "/C"} {
+	fields := []string{"/RID", "/C"}
+	if w.sc.Proto == "cmp-refresh" {
+		vs, fields = nil, []string{"/C"} // (the equivocation and the rid are covered in the key generation)
+	}
+	for _, f := range fields {
 		vs = append(vs,
 			variant{"committed-value-31-bytes-opened-consistently", f, func(r types.RID) types.RID { return append(types.RID{}, r[:31]...) }, true},
 			variant{"committed-value-33-bytes-opened-consistently", f, func(r types.RID) types.RID { return append(append(types.RID{}, r...), 7) }, true},
